@@ -113,6 +113,8 @@ def build_plan(choice: Choice, tier: str, family: str):
         call["n"] = n
         lazy = d(3, "lazy")
         call["lazy"] = lazy != 0
+        # type of a non-lazy input: any finite iterable must do
+        call["input_type"] = ["list", "tuple", "iterator", "range-like", "list"][d(5, "input.type")]
         call["pause_items"] = []
         call["pause_stop"] = 0
         if call["lazy"]:
@@ -132,10 +134,9 @@ def build_plan(choice: Choice, tier: str, family: str):
     p["begin_raises"] = None
     p["functor_raises"] = None
     p["begin_pause"] = d(3, "begin.pause") == 2
-    p["end_pause"] = 0
+    p["end_pause"] = d(4, "end.pause")      # 0,1 none; 2 yield; 3 defer (a slow end())
     p["plain_quota"] = None
     if family == "lifecycle":
-        p["end_pause"] = d(4, "end.pause")      # 0,1 none; 2 yield; 3 defer (a slow end())
         if not p["factory"] and d(3, "plain.quota") == 2:
             # a quota on the workers of a plain FunctorPool (nobody replaces them): enough capacity for all chunks
             # and an unbounded work queue, so that the stop orders of __exit__ always fit
@@ -263,7 +264,7 @@ def scenario(k: Kernel, plan, obs):
             out = []
             obs["outs"].append(out)
             obs["call_state"].append("running")
-            data = data_iter(c, call) if call["lazy"] else [(c, i) for i in range(call["n"])]
+            data = data_iter(c, call) if call["lazy"] else typed_input(c, call)
             gen = (pool.imap if call["ordered"] else pool.imap_unordered)(data, call["chunk"])
             cp = plan["consumer_pause"]
             for v in gen:
@@ -284,6 +285,28 @@ def scenario(k: Kernel, plan, obs):
     obs["phase"] = "exited"
     obs["unfinished_at_exit"] = [t.name for t in k.unfinished() if t.kind == "process"]
     obs["unfinished_threads_at_exit"] = [t.name for t in k.unfinished() if t.kind == "thread"]
+
+
+class RangeLike:
+    """An iterable that is neither a list nor a generator: only __iter__ (a fresh iterator each time)."""
+
+    def __init__(self, c, n):
+        self.c, self.n = c, n
+
+    def __iter__(self):
+        return iter([(self.c, i) for i in range(self.n)])
+
+
+def typed_input(c, call):
+    items = [(c, i) for i in range(call["n"])]
+    t = call.get("input_type", "list")
+    if t == "tuple":
+        return tuple(items)
+    if t == "iterator":
+        return iter(items)
+    if t == "range-like":
+        return RangeLike(c, call["n"])
+    return items
 
 
 def note_ready(k, pool, rec):
